@@ -84,12 +84,14 @@ Proof. exact panic_keeps_old. Qed.
 Print Assumptions C12_panic_keeps_old.
 
 (* --front-matter=process: as long as the fallback copy did not truncate the
-   target and the expression produced at least one result, the text after
-   the front matter is in the target byte for byte (exit or kill). *)
+   target, the text after the front matter is in the target byte for byte
+   (exit or kill), whether or not the expression produced a result (a run
+   always makes at least one PrintResults call; the no-result case used to
+   empty the file, fixed in /repo a2f5710). *)
 Theorem C12_front_matter_tail_kept : forall sch pl old cross,
   let cfg := mkCfg cross FmProcess in
   let o := run cfg sch pl old in
-  (exists c, In c (pl_calls pl) /\ c <> []) ->
+  pl_calls pl <> [] ->
   ~ In OCreateDst (final_trace o) ->
   tail_kept (snd (fm_split (f_bytes old))) (final_target o).
 Proof. exact front_matter_tail_kept. Qed.
@@ -141,27 +143,19 @@ Proof.
 Qed.
 Print Assumptions C12_cross_device_fail_refuted.
 
-(* --front-matter=process with an expression that yields no result: exit 0
-   and the text after the front matter is gone (PrintResults returns before
-   copying the appendix when there is nothing to print) *)
+(* the former counterexample as a positive instance: no result, exit 0, tail kept *)
 Definition w_fm_old : file := mkFile (str_of_string "---
 a: 1
 ---
 tail
 "%string) 420.
-Theorem C12_front_matter_tail_lost_refuted : exists sch pl old s,
-  let cfg := mkCfg false FmProcess in
-  run cfg sch pl old = Exited 0 s /\
-  snd (fm_split (f_bytes old)) <> [] /\
-  ~ tail_kept (snd (fm_split (f_bytes old))) (fs_target (s_fs s)).
+Example C12_front_matter_no_result_keeps_tail : exists s,
+  run (mkCfg false FmProcess) (sched_of []) (mkPlan true Done [[]] Done false) w_fm_old = Exited 0 s /\
+  fs_target (s_fs s) = Some (mkFile (snd (fm_split (f_bytes w_fm_old))) 420) /\
+  snd (fm_split (f_bytes w_fm_old)) <> [].
 Proof.
-  exists (sched_of []), (mkPlan true Done [[]] Done false), w_fm_old.
-  eexists. cbv zeta. split; [vm_compute; reflexivity|].
-  split; [vm_compute; intro H; discriminate H|].
-  intros (f & pre & post & Hf & Hb). vm_compute in Hf. injection Hf as <-.
-  vm_compute in Hb. destruct pre; discriminate Hb.
+  eexists. split; [vm_compute; reflexivity|]. split; [vm_compute; reflexivity | vm_compute; intro H; discriminate H].
 Qed.
-Print Assumptions C12_front_matter_tail_lost_refuted.
 
 (* not part of the statement but of the protocol: every error after the temp
    file was created (here: the evaluation fails) leaves the temp file behind,
